@@ -85,7 +85,7 @@ def run(ctx):
             ctx.ob("C03.G.with-span-value", f.key, "value", bool(re.search(r"Some\{.*Spanned(>)?::span\(a2\)\}", e)), "assigns %s" % e)
     f = ctx.fn(E + "has_span")
     if f:
-        rs = [e for _, e in ctx.ret_exprs(f)]
+        rs = ctx.ret_values(f)
         ctx.ob("C03.G.has-span-def", f.key, "return", rs == ["is_some(self.span)"], "returns %s" % rs)
     f = ctx.fn("darling_core::ast::data::Fields::<T>::with_span")
     if f:
@@ -110,11 +110,11 @@ def run(ctx):
            "writers: %s" % sorted(writers))
     f = ctx.fn(E + "new")
     if f:
-        rs = [e for _, e in ctx.ret_exprs(f)]
+        rs = ctx.ret_values(f)
         ctx.ob("C03.G.new-unspanned", f.key, "span: None", len(rs) == 1 and "core::option::Option::None{}" in rs[0], "returns %s" % rs)
     f = ctx.fn("<darling_core::error::Error as core::convert::From<syn::error::Error>>::from")
     if f:
-        rs = [e for _, e in ctx.ret_exprs(f)]
+        rs = ctx.ret_values(f)
         ctx.ob("C03.G.from-syn-keeps-span", f.key, "span: Some(e.span())", len(rs) == 1 and "Some{syn::error::Error::span(a1)}" in rs[0], "returns %s" % [r[:200] for r in rs])
 
     # ------------------------------------------------------------ dispatchers attach their node's span
@@ -273,7 +273,7 @@ def run(ctx):
         ctx.ob("C03.G.syn-callsite-with-path", f.key, "syn::Error::new(call site, full Display incl. path)", ok, "%s" % (kinds.get("callsite"),))
     f = ctx.fn(E + "explicit_span")
     if f:
-        rs = [e for _, e in ctx.ret_exprs(f)]
+        rs = ctx.ret_values(f)
         ctx.ob("C03.G.explicit-span-def", f.key, "return", rs == ["self.span"], "returns %s" % rs)
     return ctx.finish(
         explanation="Single-writer and first-writer-wins rules on Error.span; %d dispatchers checked for with_span(own node) on every Err exit; census of %d library and %d template error constructions; %d derived extractions." % (n_disp, n_sites, n_t, n_ext),
@@ -400,7 +400,7 @@ def exit_ok(ctx, b, s, e, depth):
                 return True, "self-spanned constructor"
             if inner[0] == "call" and inner[1] == E + "with_span":
                 return True, "with_span(%s)" % s.show(inner[2][1])
-            if inner[0] == "call" and isinstance(inner[1], str) and inner[1].endswith("unwrap_err") and inner[2] and inner[2][0][0] == "call" and _is_dispatch_call(inner[2][0][1]):
+            if inner[0] == "field" and inner[1][0] == "variant" and inner[1][2] == "Err" and inner[1][1][0] == "call" and _is_dispatch_call(inner[1][1][1]):
                 return True, "the error of a dispatcher called with the same node"
             return False, "Err(%s) built without a span" % s.show(inner)[:120]
         return False, "unrecognised aggregate %s" % e[1]
